@@ -51,14 +51,15 @@ def ocfOf (b a : List K) : SS K :=
 def ccf (b a : List K) : Option (SS K) := (prep b a).map (fun p => ccfOf p.1 p.2)
 def ocf (b a : List K) : Option (SS K) := (prep b a).map (fun p => ocfOf p.1 p.2)
 
-/-- diagonal canonical form: A = diag(poles), B = ones, C = residues, D = b[0] if Na = Nb else 0.
-    (code as it is; `b`, `a` are NOT normalised in this form) -/
+/-- diagonal canonical form: A = diag(poles), B = ones, C = residues, D = b[0]/a[0] if Na = Nb else 0.
+    `b`, `a` are the coefficient lists AFTER the cancellation of common factors the code performs first
+    (SymPy's `cancel`, an input like the poles and residues). -/
 def dcfOf (b a : List K) (poles residues : List K) : SS K :=
   { n := a.length - 1
     A := fun i j => if i = j then coef poles i else 0
     B := fun _ => 1
     C := fun j => coef residues j
-    D := if a.length = b.length then coef b 0 else 0 }
+    D := if a.length = b.length then coef b 0 / coef a 0 else 0 }
 
 def dcf (b a : List K) (poles residues : List K) : Option (SS K) :=
   if b.length > a.length then none else some (dcfOf b a poles residues)
